@@ -23,6 +23,25 @@ def handleCia (cmd : String) (args : List SExp) : String :=
       | .ok s => renderCia s
       | .error e => "e:" ++ e.name
     | _, _, _, _ => "bad-args"
+  -- the engine has loaded other tickets before (any common-key index, dev index 0 included)
+  | "cia-open", [f, st, dv, bl, .list prior] =>
+    match f.bytes?, st.nat?, dv.nat?, bl.bytes?, prior.mapM SExp.bytes? with
+    | some file, some start, some d, some blob, some tickets =>
+      let eng := tickets.foldl (fun g t => (Engine.loadFromTicket blockD g t).1) (Engine.create (d == 1) (some blob))
+      match Cia.parse Prim.sha256 blockD eng file start with
+      | .ok s => renderCia s
+      | .error e => "e:" ++ e.name
+    | _, _, _, _, _ => "bad-args"
+  -- one engine going through a list of tickets: the title key slot after each load
+  | "ticket-walk", [dv, bl, .list tickets] =>
+    match dv.nat?, bl.bytes?, tickets.mapM SExp.bytes? with
+    | some d, some blob, some ts =>
+      let step := fun (acc : Engine × List String) (t : Bytes) =>
+        match Engine.loadFromTicket blockD acc.1 t with
+        | (g, some e) => (g, acc.2 ++ ["e:" ++ e.name])
+        | (g, none) => (g, acc.2 ++ [match g.normal 0x40 with | some k => toHexW k | none => "none"])
+      " ".intercalate (ts.foldl step (Engine.create (d == 1) (some blob), [])).2
+    | _, _, _ => "bad-args"
   | "cia-ops", [f, st, dv, bl, sec, .list ops] =>
     match f.bytes?, st.nat?, dv.nat?, bl.bytes?, sec.int?, ops.mapM Op.ofSExp with
     | some file, some start, some d, some blob, some sc, some ops =>
